@@ -66,11 +66,9 @@ seq_t dtw_warping_paths{{ suffix }}{{ suffix2 }}(seq_t *wps,
     if (settings->use_pruning || settings->only_ub) {
         seq_t user_max_dist = p.max_dist;
         {%- if "euclidean" == inner_dist %}
-        if (ndim == 1) {
-            p.max_dist = ub_euclidean_euclidean(s1, l1, s2, l2);
-        } else {
-            p.max_dist = ub_euclidean_ndim_euclidean(s1, l1, s2, l2, ndim);
-        }
+        // Same arithmetic as the cells below (sqrt of the summed squares, also for ndim == 1): a bound that is
+        // rounded differently can lie below the accumulated cost of the Euclidean path itself
+        p.max_dist = ub_euclidean_ndim_euclidean(s1, l1, s2, l2, ndim);
         if (settings->only_ub) {
             return p.max_dist;
         }
